@@ -406,6 +406,16 @@ func applyEdits(input string, edits []parser.FmtDiff) string {
 }
 
 // c19Law evaluates property C19 on one input (no-op when the formatter rejects it).
+// dropTrailingBlankLines removes the lines at the end that hold only white space; the last line with content is kept
+// as it is (a carriage return at its end is content)
+func dropTrailingBlankLines(s string) string {
+	lines := strings.Split(s, "\n")
+	for len(lines) > 0 && strings.TrimSpace(lines[len(lines)-1]) == "" {
+		lines = lines[:len(lines)-1]
+	}
+	return strings.Join(lines, "\n")
+}
+
 func c19Law(input, cls string, out *Out) (edits []parser.FmtDiff, applicable bool) {
 	f1, err := parser.Fmt(input)
 	if err != nil {
@@ -449,7 +459,7 @@ func c19Law(input, cls string, out *Out) (edits []parser.FmtDiff, applicable boo
 	if wellFormed {
 		got := applyEdits(input, edits)
 		// "up to trailing blank lines": trailing lines holding only white space count as blank
-		if strings.TrimRightFunc(got, unicode.IsSpace) != strings.TrimRightFunc(f1, unicode.IsSpace) {
+		if dropTrailingBlankLines(got) != dropTrailingBlankLines(f1) {
 			out.V("C19|applied-differs|"+cls, "applying FmtDiffs(%q) gives %q, Fmt gives %q", input, got, f1)
 		}
 	}
